@@ -74,6 +74,7 @@ fn run_case<const N: usize>(slot: usize, bs: usize, ops: &[&str]) -> String {
     };
     let mut sess: Option<Updater> = None;
     let mut last_bl: Option<usize> = None;
+    let mut last_fb: Option<usize> = None;
     let mut out: Vec<String> = vec![];
     for op in ops {
         let t: Vec<&str> = op.split_whitespace().collect();
@@ -161,12 +162,20 @@ fn run_case<const N: usize>(slot: usize, bs: usize, ops: &[&str]) -> String {
             "fb" => match guard(|| block_on(m.fallback_firmware(&mut f, &mut scratch))) {
                 Err(_) => "panic".to_string(),
                 Ok(Err(e)) => format!("err:{}", merr(&e)),
-                Ok(Ok(None)) => "none".to_string(),
-                Ok(Ok(Some(s))) => format!("some:{}", slot_index::<N>(&s, &f, slot)),
+                Ok(Ok(None)) => {
+                    last_fb = None;
+                    "none".to_string()
+                }
+                Ok(Ok(Some(s))) => {
+                    let i = slot_index::<N>(&s, &f, slot);
+                    last_fb = Some(i);
+                    format!("some:{i}")
+                }
             },
             "validbl" | "dumpbl" if last_bl.is_none() => "nobl".to_string(),
-            "valid" | "validbl" => {
-                let i: usize = if t[0] == "valid" { t[1].parse().unwrap() } else { last_bl.unwrap() };
+            "validfb" if last_fb.is_none() => "nofb".to_string(),
+            "valid" | "validbl" | "validfb" => {
+                let i: usize = if t[0] == "valid" { t[1].parse().unwrap() } else if t[0] == "validfb" { last_fb.unwrap() } else { last_bl.unwrap() };
                 match guard(|| {
                     let s = m.open(i);
                     block_on(s.is_valid_firmware(&mut f, &mut scratch))
